@@ -283,3 +283,143 @@ package document
 //@   invariant forall t *Table :: !isElem(t) && t != table ==> t.Rows == old(t.Rows)
 //@   invariant forall r *TableRow :: !isElem(r) && allocated(r) ==> r.Cells == old(r.Cells)
 //@   invariant forall p *Paragraph :: !isElem(p) && allocated(p) ==> p.Runs == old(p.Runs)
+
+// ---- document level -------------------------------------------------------------------------------------
+// elemOwned / docOwned: the document object, its body, the element list and the part map lie at or above b; so
+// does every top-level paragraph and table object (separately allocated objects, not array cells), and every
+// table is rooted in the region.
+//@ spec elemOwned(x any, b int) bool = ref(x) != nil && (isPara(x) ==> above(x, b) && !isElem(x.(*Paragraph))) && (isTable(x) ==> tableRoot(x.(*Table), b) && !isElem(x.(*Table)))
+//@ spec elemsOwned(es []any, b int) bool = forall j int :: {es[j]} 0 <= j && j < len(es) ==> elemOwned(es[j], b)
+//@ spec docOwned(d *Document, b int) bool = d != nil && above(d, b) && d.Body != nil && above(d.Body, b) && above(d.Body.Elements, b) && elemsOwned(d.Body.Elements, b) && above(d.parts, b)
+
+//@ func (*TemplateEngine).escapeXMLContent
+//@ props C17
+//@ modifies nothing
+
+//@ func (*TemplateEngine).replaceVariablesInXMLPart
+//@ props C17
+//@ requires te != nil && data != nil
+//@ modifies nothing
+//@ ensures err == nil
+
+// Header/footer parts: the part map of the document is updated in place (same keys), the new byte arrays are
+// fresh; the byte arrays that were in the map are not written.
+//@ func (*TemplateEngine).replaceVariablesInHeadersFooters
+//@ props C17
+//@ ghost B int
+//@ requires te != nil && doc != nil && data != nil && above(doc.parts, B)
+//@ modifies map:string:[]byte
+//@ ensures unchangedBelow(B)
+//@ loop 1
+//@   invariant unchangedBelow(B) && doc.parts != nil
+
+// applyRenderedContentToDocument appends fresh paragraphs to the body of the document it is given.
+//@ func (*TemplateEngine).applyRenderedContentToDocument
+//@ props C17
+//@ ghost B int
+//@ requires te != nil && docOwned(doc, B)
+//@ modifies Body.Elements, cell:any
+//@ ensures err == nil
+//@ ensures unchangedBelow(B) && docOwned(doc, B)
+//@ loop 1
+//@   invariant 0 <= #i && #i <= len(lines) && unchangedBelow(B)
+//@   invariant unchangedExcept("Body.Elements", "cell:any")
+//@   invariant docOwned(doc, B)
+//@   decreases len(lines) - #i
+
+// processDocumentLevelLoops rebuilds the element list of the document it is given: the new list is a fresh
+// array holding the old elements and fresh clones; of the existing memory only doc.Body.Elements is assigned.
+//@ func (*TemplateEngine).processDocumentLevelLoops
+//@ props C17
+//@ ghost B int
+//@ ignore-ensures deepcopy
+//@ requires te != nil && data != nil && docOwned(doc, B) && closedAbove(B)
+//@ modifies Body.Elements
+//@ ensures err == nil
+//@ ensures unchangedBelow(B)
+//@ ensures closedAbove(B)
+//@ ensures docOwned(doc, B)
+//@ ensures forall p *Paragraph :: allocated(p) ==> p.Runs == old(p.Runs)
+//@ loop 1
+//@   invariant unchangedHeap()
+//@   invariant closedRows(B)
+//@   invariant closedCells(B)
+//@   invariant closedTables(B)
+//@   invariant cap(newElements) == 0 || arr(newElements) >= old(allocBound())
+//@   invariant elemsOwned(newElements, B)
+//@   invariant 0 <= i && i <= len(elements)
+//@ loop 2
+//@   invariant unchangedHeap()
+//@   invariant closedRows(B)
+//@   invariant closedCells(B)
+//@   invariant closedTables(B)
+//@   invariant cap(newElements) == 0 || arr(newElements) >= old(allocBound())
+//@   invariant elemsOwned(newElements, B)
+//@   invariant 0 <= i && i <= len(elements)
+//@   invariant i < len(elements)
+//@ loop 3
+//@   invariant unchangedHeap()
+//@   invariant closedRows(B)
+//@   invariant closedCells(B)
+//@   invariant closedTables(B)
+//@   invariant cap(newElements) == 0 || arr(newElements) >= old(allocBound())
+//@   invariant elemsOwned(newElements, B)
+//@   invariant 0 <= i && i <= len(elements)
+//@   invariant i < len(elements) && i <= j && j <= len(elements) && loopEndIndex == -1
+//@   invariant cap(templateElements) == 0 || arr(templateElements) >= old(allocBound())
+//@   invariant forall k int :: {templateElements[k]} 0 <= k && k < len(templateElements) ==> elemOwned(templateElements[k], B)
+//@ loop 4
+//@   invariant unchangedHeap()
+//@   invariant closedRows(B)
+//@   invariant closedCells(B)
+//@   invariant closedTables(B)
+//@   invariant cap(newElements) == 0 || arr(newElements) >= old(allocBound())
+//@   invariant elemsOwned(newElements, B)
+//@   invariant 0 <= i && i <= len(elements)
+//@   invariant i < len(elements) && i <= j && j < len(elements) && loopEndIndex == -1
+//@   invariant cap(templateElements) == 0 || arr(templateElements) >= old(allocBound())
+//@   invariant forall k int :: {templateElements[k]} 0 <= k && k < len(templateElements) ==> elemOwned(templateElements[k], B)
+//@ loop 5
+//@   invariant unchangedHeap()
+//@   invariant closedRows(B)
+//@   invariant closedCells(B)
+//@   invariant closedTables(B)
+//@   invariant cap(newElements) == 0 || arr(newElements) >= old(allocBound())
+//@   invariant elemsOwned(newElements, B)
+//@   invariant 0 <= i && i <= len(elements)
+//@   invariant 0 <= loopEndIndex && loopEndIndex < len(elements) && i <= loopEndIndex
+//@   invariant cap(templateElements) == 0 || arr(templateElements) >= old(allocBound())
+//@   invariant forall k int :: {templateElements[k]} 0 <= k && k < len(templateElements) ==> elemOwned(templateElements[k], B)
+//@ loop 6
+//@   invariant unchangedHeap()
+//@   invariant closedRows(B)
+//@   invariant closedCells(B)
+//@   invariant closedTables(B)
+//@   invariant cap(newElements) == 0 || arr(newElements) >= old(allocBound())
+//@   invariant elemsOwned(newElements, B)
+//@   invariant 0 <= i && i <= len(elements)
+//@   invariant 0 <= loopEndIndex && loopEndIndex < len(elements) && i <= loopEndIndex
+//@   invariant cap(templateElements) == 0 || arr(templateElements) >= old(allocBound())
+//@   invariant forall k int :: {templateElements[k]} 0 <= k && k < len(templateElements) ==> elemOwned(templateElements[k], B)
+//@ loop 7
+//@   invariant unchangedHeap()
+//@   invariant closedRows(B)
+//@   invariant closedCells(B)
+//@   invariant closedTables(B)
+//@   invariant cap(newElements) == 0 || arr(newElements) >= old(allocBound())
+//@   invariant elemsOwned(newElements, B)
+//@   invariant 0 <= i && i <= len(elements)
+//@   invariant 0 <= loopEndIndex && loopEndIndex < len(elements) && i <= loopEndIndex
+//@   invariant cap(templateElements) == 0 || arr(templateElements) >= old(allocBound())
+//@   invariant forall k int :: {templateElements[k]} 0 <= k && k < len(templateElements) ==> elemOwned(templateElements[k], B)
+//@ loop 8
+//@   invariant unchangedHeap()
+//@   invariant closedRows(B)
+//@   invariant closedCells(B)
+//@   invariant closedTables(B)
+//@   invariant cap(newElements) == 0 || arr(newElements) >= old(allocBound())
+//@   invariant elemsOwned(newElements, B)
+//@   invariant 0 <= i && i <= len(elements)
+//@   invariant 0 <= loopEndIndex && loopEndIndex < len(elements) && i <= loopEndIndex
+//@   invariant cap(templateElements) == 0 || arr(templateElements) >= old(allocBound())
+//@   invariant forall k int :: {templateElements[k]} 0 <= k && k < len(templateElements) ==> elemOwned(templateElements[k], B)
